@@ -757,7 +757,22 @@ fn main() {
 
 
 def c09(tier, mi):
-    rlib, deps = real_rlib()
+    v1, c1 = c09_profile(tier, mi, False)
+    # the same pairs against a release build of the crate (no debug assertions): a refusal must not
+    # depend on the build profile
+    v2, c2 = c09_profile(tier, mi, True)
+    for v in v2:
+        v["key"] += ":release-profile"
+        v["what"] += " (crate built with the release profile)"
+    for k in ("states", "transitions", "traces_validated_against_impl", "pairs_judged"):
+        c1[k] += c2[k]
+    c1["profiles"] = ["dev", "release"]
+    return v1 + v2, c1
+
+
+def c09_profile(tier, mi, release):
+    rlib, deps = real_rlib(release)
+    sfx = "_rel" if release else ""
     src1, F = gen_c09_program()
     arms_all = parse_arms(os.path.join(mi["repo"], "src", "interface", "macros.rs"))
     seen_arms = {}
@@ -765,14 +780,14 @@ def c09(tier, mi):
         seen_arms.setdefault(arm_name(a), a)
     arms = list(seen_arms.values())
     src2, items, kinds, shapes = gen_c09_macro_program(arms)
-    built = build_many({"c09_pairs": src1, "c09_macros": src2, "c09_context": gen_c09_context_program()}, rlib, deps)
+    built = build_many({"c09_pairs" + sfx: src1, "c09_macros" + sfx: src2, "c09_context" + sfx: gen_c09_context_program()}, rlib, deps)
     prefixes = c09_prefixes()
     for name, (ok, err, exe) in built.items():
         if not ok:
             raise MachineryError(f"generated program {name} does not compile against this tree (a well-typed use of the public macros is rejected?): " + err[-1500:])
     viols = []
     lines = []
-    for name in ("c09_pairs", "c09_macros", "c09_context"):
+    for name in ("c09_pairs" + sfx, "c09_macros" + sfx, "c09_context" + sfx):
         rc, so, se = run_many([[built[name][2]]], timeout=120)[0]
         if rc != 0:
             viols.append({"key": f"{name}:process-died", "what": f"the pair program died with status {rc}: {se[-300:]}", "engine": "e4", "args": ["c09"], "case": {"program": name, "stdout_tail": so[-400:]}})
